@@ -801,7 +801,7 @@ class Gaussian(Funsor, metaclass=GaussianMeta):
         for old_k, old_offset in old_offsets.items():
             old_size = old_real_inputs[old_k].num_elements
             old_slice = slice(old_offset, old_offset + old_size)
-            if old_k in new_real_inputs:
+            if old_k not in affine:
                 new_offset = new_offsets[old_k]
                 new_slice = slice(new_offset, new_offset + old_size)
                 subs_matrix[..., new_slice, old_slice] = ops.new_eye(
